@@ -42,7 +42,7 @@ type c19Case struct {
 func snapshotOwned(env *model.Env) []string {
 	out := make([]string, len(env.Owned))
 	for i, v := range env.Owned {
-		out[i] = model.CanonJSON(v)
+		out[i] = model.CanonCapJSON(v) // incl. the spare capacity of slices: memory the schema owns although no element lives there
 	}
 	return out
 }
@@ -131,7 +131,7 @@ func propC19(c c19Case) hh.Verdict {
 					}
 				}
 			}
-			inSnap = model.CanonJSON(reflect.ValueOf(in))
+			inSnap = model.CanonCapJSON(reflect.ValueOf(in))
 			if len(st.Input.M) > 0 || len(st.Input.L) > 0 {
 				for _, kv := range st.Input.M {
 					if len(kv.V.M) > 0 || len(kv.V.L) > 0 {
@@ -150,7 +150,7 @@ func propC19(c c19Case) hh.Verdict {
 			return hh.Fail("step %d: panic: %v", i, res.Panic)
 		}
 		if st.Mode == "parse" {
-			if after := model.CanonJSON(reflect.ValueOf(in)); after != inSnap {
+			if after := model.CanonCapJSON(reflect.ValueOf(in)); after != inSnap {
 				return hh.Fail("step %d: Parse modified its input data: before %s after %s", i, inSnap, after)
 			}
 		} else if pure {
